@@ -416,6 +416,12 @@ def install():
     E['numpy.clip'] = _clip
 
     def _dot(i, a, k):
+        m = mat_of(a[0]) if not isinstance(a[0], Vec) else None
+        if m is not None:
+            y = vec_of(a[1])
+            if y is None or len(y.e) != m.ncols:
+                raise OutOfSubset('dot shapes')
+            return Vec([vsum([ops.arith('*', p, q) for p, q in zip(r.e, y.e)]) for r in m.rows])
         x, y = vec_of(a[0]), vec_of(a[1])
         if x is None or y is None or len(x.e) != len(y.e):
             raise OutOfSubset('dot')
@@ -432,6 +438,35 @@ def install():
             raise OutOfSubset('average with weights')
         return ops.arith('/', vsum([ops.arith('*', p, q) for p, q in zip(x.e, w.e)]), vsum(w.e))
     E['numpy.average'] = _average
+    def _append(i, a, k):
+        x = vec_of(a[0])
+        y = vec_of(a[1]) if isinstance(a[1], (Vec, Arr, list, tuple)) else Vec([a[1]])
+        if x is None or y is None:
+            raise OutOfSubset('np.append')
+        return Vec(list(x.e) + list(y.e))
+    E['numpy.append'] = _append
+
+    def _reduce_ufunc(f):
+        def g(i, a, k):
+            items = [vec_of(x) if isinstance(x, (Vec, Arr, list, tuple)) else x for x in i.iterate(a[0])]
+            r = items[0]
+            for x in items[1:]:
+                r = lib.elementwise2(i, f, r, x)
+            return r
+        return g
+    E['numpy.maximum.reduce'] = _reduce_ufunc(ops.np_max2)
+    E['numpy.minimum.reduce'] = _reduce_ufunc(ops.np_min2)
+    E['numpy.isfinite'] = lambda i, a, k: lib.elementwise1(i, lambda x: (x is not NAN) if nan_of(x) is None else ops.lnot(mk_bool(nan_of(x))),
+                                                           vec_of(a[0]) if vec_of(a[0]) is not None and not isinstance(a[0], Sym) else a[0])
+
+    def _reduce(i, a, k):
+        f, seq = a[0], a[1]
+        items = i.iterate(seq)
+        acc = a[2] if len(a) > 2 else items.pop(0)
+        for x in items:
+            acc = i.call(f, [acc, x])
+        return acc
+    E['functools.reduce'] = _reduce
     E['numpy.median'] = lambda i, a, k: (_ for _ in ()).throw(OutOfSubset('median needs sorting of symbolic values'))
 
     prev_isnan = old['numpy.isnan']
@@ -473,6 +508,19 @@ def vec_methods(interp, v, name):
             return Builtin('fill', fill)
         if name == 'dtype':
             return Opaque('dtype')
+        if name == 'astype':
+            def astype(i, a, k, v=v):
+                t = a[0]
+                nm = getattr(t, 'name', None)
+                vv = vec_of(v)
+                if vv is None:
+                    raise OutOfSubset('astype on a matrix')
+                if nm in ('float', 'numpy.float64', 'numpy.float32') or (isinstance(t, str) and 'float' in t):
+                    return Vec(list(vv.e))
+                if nm == 'bool':
+                    return Vec([ops.truthy(x) for x in vv.e])
+                raise OutOfSubset('astype ' + str(nm))
+            return Builtin('astype', astype)
         if name == 'reshape':
             def reshape(i, a, k, v=v):
                 shp = a[0] if len(a) == 1 and isinstance(a[0], tuple) else tuple(a)
